@@ -43,11 +43,17 @@ def make(pb, cls, L, rate, t0=None, nchan=3, extra=(), center_freq=None, chan_bw
     shape = sample_shape(cls, nchan, extra)
     if data is None:
         data = index_data(cls, L, shape, dtype)
-    kw = dict(sample_rate=rate, start_time=None if t0 is None else Time(t0, precision=9), meta=meta)
+    # arguments equal to their documented defaults are left out: the defaults are part of the interface
+    kw = dict(sample_rate=rate)
+    if t0 is not None:
+        kw["start_time"] = Time(t0, precision=9)
+    if meta is not None:
+        kw["meta"] = meta
     C = getattr(pb, cls)
     if cls != "Signal":
         kw["center_freq"] = center_freq if center_freq is not None else 400 * u.MHz
-        kw["freq_align"] = freq_align
+        if freq_align != "center":
+            kw["freq_align"] = freq_align
         if not is_complex(cls):
             kw["chan_bw"] = chan_bw if chan_bw is not None else rate
     if cls == "DualPolarizationSignal":
